@@ -444,6 +444,7 @@ func (w *CliWorld) scheduleNext() {
 	w.K.At(at, fmt.Sprintf("op:%d:%s:%s", op.ID, op.Actor, op.Kind), func() {
 		w.prev = w.K.Now()
 		w.K.Stats.Op(op.Kind)
+		w.K.OpIssued(op.ID)
 		w.exec(op)
 		w.scheduleNext()
 	})
